@@ -35,7 +35,8 @@ pub fn verdict_compare<P: G>(st: &RangeStatement<P>, bytes: &[u8], ctx: &Ctx, su
     let rp = match refbp::ref_decode(bytes) {
         Some(p) => p,
         None => {
-            res.machinery_error(format!("{}: reference decoder refuses bytes the library decodes", sub));
+            // which byte strings decode is C15's property
+            res.binding_note(format!("{}/decode", sub), "reference decoder refuses bytes the library decodes (C15)");
             return;
         },
     };
